@@ -415,6 +415,17 @@ func c06Run(c Case) (Result, error) {
 			if _, _, err := insp.VerifyAndAdd(0, shares[0]); !crypto.IsDuplicatedSignerError(err) {
 				return Result{}, implViolation("VerifyAndAdd of a signer already added returned %v", err)
 			}
+			// ... whatever the duplicate carries: another signer's share, a malformed one, a wrong length
+			malDup := append([]byte{}, shares[0]...)
+			malDup[0] &= 0x7F
+			for _, bad := range [][]byte{shares[1%in.N], malDup, shares[0][:47], nil} {
+				if v, en, err := insp.VerifyAndAdd(0, bad); !crypto.IsDuplicatedSignerError(err) || v || en {
+					return Result{}, implViolation("VerifyAndAdd of a signer already added, with a share that does not verify (%d bytes), returned (%v, %v, %v)", len(bad), v, en, err)
+				}
+				if _, err := insp.TrustedAdd(0, bad); !crypto.IsDuplicatedSignerError(err) {
+					return Result{}, implViolation("TrustedAdd of a signer already added, with another share (%d bytes), returned %v", len(bad), err)
+				}
+			}
 		}
 		// stateful object: an invalid share added with TrustedAdd must produce an error, never a bad signature
 		ts, _ := crypto.NewBLSThresholdSignatureInspector(gpk, pks, in.T, msg, tag)
